@@ -577,10 +577,15 @@ func (i *IPv6Routing) SerializeTo(b gopacket.SerializeBuffer, opts gopacket.Seri
 	bytes[1] = byte(hdrExtLen)
 	bytes[2] = i.RoutingType
 	bytes[3] = i.SegmentsLeft
+	copy(bytes[4:8], lotsOfZeros[:4])
 	copy(bytes[4:8], i.Reserved)
 	for i, ip := range i.SourceRoutingIPs {
+		ip16 := ip.To16()
+		if ip16 == nil {
+			return fmt.Errorf("invalid IPv6 source routing address %v", ip)
+		}
 		offset := 8 + i*16
-		copy(bytes[offset:offset+16], ip.To16())
+		copy(bytes[offset:offset+16], ip16)
 	}
 	return nil
 }
